@@ -123,7 +123,7 @@ def run_codec(ctx):
     has_ts_param = 'command_timestamp' in inspect.signature(nfd_mgmt.make_command).parameters
     o_ts, o_nonce = nfd_mgmt.timestamp, nfd_mgmt.gen_nonce_64
     try:
-        for it in range(ctx.n(400, 8000)):
+        for it in range(ctx.n(600, 8000)):
             if rng.random() < 0.4:
                 # what register/unregister pass: only the prefix
                 vals = [None] * len(fields)
@@ -612,7 +612,13 @@ class World:
         self.settle()
 
     def ev_tick(self):
-        self.loop.advance_to(self.loop.time() + 0.001)
+        """one sleep of the timestamp loop ends: advance to the next timer if one is due within 10 ms
+        (so the event means the same whatever the sleep length is), else 1 ms."""
+        now = self.loop.time()
+        whens = [h._when for h in self.loop._scheduled if not h._cancelled and h._when > now]
+        nxt = min(whens) if whens else None
+        target = nxt + 1e-9 if nxt is not None and nxt <= now + 0.01 else now + 0.001
+        self.loop.advance_to(target)
 
     def feed(self, typ, wire):
         async def go():
@@ -755,7 +761,7 @@ def rand_clock(rng):
     return 'pairs', r, 1
 
 
-STATUS = [200, 200, 200, 200, 0, 100, 199, 201, 204, 299, 300, 399, 400, 403, 404, 409, 410, 500, 503, 504, 599, 65536,
+STATUS = [200] * 12 + [0, 100, 199, 201, 204, 299, 300, 399, 400, 403, 404, 409, 410, 500, 503, 504, 599, 65536,
           (1 << 32) + 200, 456]
 
 
@@ -935,13 +941,25 @@ def reply_class(r):
 def run_protocol(ctx):
     rng = ctx.rng
     M = ctx.call
-    protos = M([8])
-    p = {2: (protos[0], protos[1]), 1: (protos[2], protos[3])}
-    if num(protos[4]) != 0x65:
-        ctx.disagree('parse_response', 'response TLV type in the source is not 0x65', {}, num(protos[4]), 0x65)
-    ctx.extra['protocols'] = {'v2_register': protos[0], 'v2_unregister': protos[1], 'v1_register': protos[2],
-                              'v1_unregister': protos[3]}
-    for it in range(ctx.n(260, 6000)):
+    # the protocol records of the source under test, through the same translator that writes Generated/RegProto.v
+    p = None
+    try:
+        import importlib.util
+        import os
+        spec = importlib.util.spec_from_file_location(
+            'gen_regproto', os.path.join(os.path.dirname(__file__), '..', '..', 'tools', 'gen_regproto.py'))
+        gp = importlib.util.module_from_spec(spec)
+        spec.loader.exec_module(gp)
+        recs = gp.analyse_all()
+        p = {2: (gp.sexp_proto(recs['v2_register']), gp.sexp_proto(recs['v2_unregister'])),
+             1: (gp.sexp_proto(recs['v1_register']), gp.sexp_proto(recs['v1_unregister']))}
+        ctx.extra['protocols'] = recs
+        if gp.response_type() != 0x65:
+            ctx.disagree('parse_response', 'response TLV type in the source is not 0x65', {}, gp.response_type(), 0x65)
+    except SystemExit as e:
+        # fail-closed translation: no model to compare with; the specification is still evaluated on the implementation
+        ctx.disagree('gen_regproto', f'translation of the registration functions aborted: {e}', {}, None, None)
+    for it in range(ctx.n(600, 8000)):
         fe = 2 if rng.random() < 0.55 else 1
         cname, readings, step = rand_clock(rng)
         local = rng.random() < 0.8
@@ -968,13 +986,15 @@ def run_protocol(ctx):
         for site, cls, what in w.viol:
             ctx.violation(site, cls, what, case)
         # ---- correspondence ----
-        m = M([6, p[fe][0], p[fe][1], [readings, step], evs])
-        if is_err(m):
+        m = M([6, p[fe][0], p[fe][1], [readings, step], evs]) if p is not None else None
+        if m is not None and is_err(m):
             ctx.disagree('Registerer.run', 'model bad request', case, m, None)
             continue
-        mlog = [canon_obs(o) for o in m[0]]
+        mlog = [canon_obs(o) for o in m[0]] if m is not None else None
         ilog = [canon_obs(o) for o in w.log]
-        if mlog != ilog:
+        if m is None:
+            pass
+        elif mlog != ilog:
             k = next((j for j in range(min(len(mlog), len(ilog))) if mlog[j] != ilog[j]), min(len(mlog), len(ilog)))
             ctx.disagree(w.site(), f'observable logs differ at entry {k}', case,
                          {'at': k, 'entry': mlog[k] if k < len(mlog) else None, 'len': len(mlog)},
